@@ -2594,12 +2594,19 @@ KNOWN_SHAPES = [
     # P12: a declared function applied to no argument is read as the bare function symbol (not a term)
     ("P12", "(declare-fun f (Int) Int)(get-value ((f)))", "nullary-application", "get-value"),
     ("P12", "(declare-fun f (Int) Int)(assert (let ((g (f))) true))", "nullary-application", "let"),
+    # P13: the bare name of a declared function as a whole command argument / list element is returned as a Python callable
+    ("P13", "(declare-fun f (Bool) Int)(minimize f)", "bare-function-name", "minimize"),
+    ("P13", "(declare-fun f (Bool) Int)(get-value (f true))", "bare-function-name", "get-value"),
 ]
+# shapes on which the Lean model deliberately does not mirror the code (it answers an error where the code returns a
+# non-term): not sent to the correspondence run
+NO_K_KINDS = {"bare-function-name"}
 
 
 def run_known_shapes(ctx):
     for fid, text, kind, detail in KNOWN_SHAPES:
-        K_TEXTS.append(("known-" + kind, text))
+        if kind not in NO_K_KINDS:
+            K_TEXTS.append(("known-" + kind, text))
         res = run_impl(text)
         ctx.case("known:" + text)
         if res[0] == "ok":
